@@ -31,15 +31,15 @@ func init() {
 			return q
 		}
 	}
-	fw.Register(&fw.Property{ID: "C10", Level: "exploration", Cases: cases(160+streamEnumQuick, 6000+streamEnumThorough), Need: []string{"releases", "stream_boundaries", "stream_cancel"},
+	fw.Register(&fw.Property{ID: "C10", Level: "exploration", Cases: cases(160+streamEnumQuick, 6000+streamEnumThorough), Need: []string{"releases", "stream_boundaries", "stream_cancel", "ok_MsgCreateStream", "ok_MsgClaimStream", "ok_MsgTopUpDeposit", "ok_MsgUpdateFlowRate", "ok_MsgCancelStream"},
 		Rule:        "each case: random genesis (validator fee in {0,1e-18,1%,24%,1/3,0.999..,1}) + 40-60 block stream-heavy history (create/claim/top-up/rate/cancel over many pairs and 3 denominations, hostile signers, authz-nested, multi-op, transfers aimed at the escrow, governance fee changes, block gaps from 1 ns to centuries). Per tx: balance deltas of every account, escrow and fee collector vs the exact reference model (fee = floor(released x current rate)); non-stream and failed txs must not move the escrow; at every boundary escrow == sum of remaining deposits per denom and the registered invariants hold; per stream deposited == paid + fees + refunds + remaining. distinct = (op, before/after zero time, released magnitude, fee rate)",
 		Assumptions: []string{"<= 8 concurrent streams, <= 9 accounts"},
 		Run:         func(c *fw.Ctx) { runStreamHistory(c, "C10", c10Rules) }})
-	fw.Register(&fw.Property{ID: "C11", Level: "exploration", Cases: cases(192+streamEnumQuick, 8000+streamEnumThorough), Need: []string{"releases", "pure_cases"},
+	fw.Register(&fw.Property{ID: "C11", Level: "exploration", Cases: cases(192+streamEnumQuick, 8000+streamEnumThorough), Need: []string{"releases", "pure_cases", "ok_MsgCreateStream", "ok_MsgClaimStream", "ok_MsgTopUpDeposit", "ok_MsgUpdateFlowRate", "ok_MsgCancelStream"},
 		Rule:        "(a) pure functions CalculateAmountToClaim / CalculateDuration / CalculateValidatorFee called directly (recover) on boundary grids (products around 2^31, 2^53, 2^63, 2^64; nanosecond grid {0,1ns,0.5s,0.999999999s} x gaps {1s,2^22s,2^24s,2^30s,>292y}) and PRNG inputs (rates 1..2^63-1, deposits 1..2^200) vs math/big; (b) full-chain histories incl. extreme rates/deposits in an 18-decimal denomination, drained streams followed by top-ups and claims, rate changes, sub-second and multi-century block gaps: after every tx the stream record (deposit, rate, last release, advertised zero time) and all balance deltas equal the exact model and deposit >= rate x seconds(last release .. zero time). distinct = (op, before/after zero, magnitude class)",
 		Assumptions: []string{"durations are bounded by 2^62 s (time.Time range); header times carry nanoseconds"},
 		Run:         func(c *fw.Ctx) { runC11(c) }})
-	fw.Register(&fw.Property{ID: "C12", Level: "exploration", Cases: cases(160+streamEnumQuick, 6000+streamEnumThorough), Need: []string{"probes", "pure_cases"},
+	fw.Register(&fw.Property{ID: "C12", Level: "exploration", Cases: cases(160+streamEnumQuick, 6000+streamEnumThorough), Need: []string{"probes", "pure_cases", "ok_MsgCreateStream", "ok_MsgClaimStream", "ok_MsgTopUpDeposit", "ok_MsgUpdateFlowRate", "ok_MsgCancelStream"},
 		Rule:        "liveness restated as bounded progress: in stream histories with deposits up to 2^200 (18-decimal denomination), all fee rates in [0,1] and elapsed times past expiry, at every block boundary every stream with a positive deposit is probed with app.Simulate (non-mutating): claim by the receiver, cancel by the sender and an affordable top-up must each succeed now; the real claim/cancel/top-up transactions of the history must succeed when entitled; no stream DeliverTx may return the panic code; plus the pure functions under recover. distinct = (probe kind, deposit magnitude, fee rate); non-trivial = stream with deposit >= 2^63 probed",
 		Assumptions: []string{"'a top-up the sender can afford' = an amount of rate x 60 of the stream's denomination that the sender's balance covers"},
 		Run:         func(c *fw.Ctx) { runStreamHistory(c, "C12", c12Rules) }})
